@@ -49,6 +49,9 @@ Stmt(t) ==
       [] t = "Nla" -> [k |-> "scope", n |-> "n", b |-> <<Lab("a")>>]
       [] t = "IPS" -> [k |-> "ips", file |-> "p1.ips", delta |-> N(512), recs |-> IpsRecs]
       [] t = "IPSc" -> [k |-> "ips", file |-> "p1.ips", delta |-> I("c"), recs |-> IpsRecs]
+      \* recursion that ends through a condition on the parameter: m1(p - 1) inside `.if p`
+      [] t = "AP1d" -> [k |-> "apply", n |-> "m1", as |-> <<[k |-> "bin", o |-> "-", l |-> I("p"), r |-> N(1)]>>]
+      [] t = "AP1n2" -> [k |-> "apply", n |-> "m1", as |-> <<N(2)>>]
       [] t = "SPa" -> [k |-> "splice", p |-> "a"]
       [] t = "AP2na" -> [k |-> "apply", n |-> "m2", as |-> <<N(1), I("a")>>]      \* second argument named like the first parameter
       [] t = "AP2ab" -> [k |-> "apply", n |-> "m2", as |-> <<I("b"), N(2)>>]
@@ -87,14 +90,15 @@ AlphaSeq ==
       [] Family = "shadowloop2" -> <<"C1234", "FORc02{", "}", "LDc", "La", "DLa", "DB">>
       \* .include_ips among position moves, scopes, loops; delta a literal or a constant defined before / after
       [] Family = "ipsfam" -> <<"IPS", "IPSc", "C3", "DB", "S3", "{", "}", "FOR02{", "La", "DLa", "A1">>
+      [] Family = "recur" -> <<"M1{", "IFp{", "}", "DBp", "AP1d", "AP1n2">>
       [] Family = "tiny"   -> <<"La", "DB", "DLa", "{", "}", "S3">>
 Alphabet == Range(AlphaSeq)
 TokIndex(t) == CHOOSE j \in 1..Len(AlphaSeq) : AlphaSeq[j] = t
 
 \* ---- token string -> nested program body -------------------------------------------------
-Openers == {"{", "N{", "M0{", "M1{", "M2{", "IF1{", "IF0{", "IFc{", "IFu{", "IFm{", "FOR02{", "FOR13{", "FOR20{", "FOR0c{", "FOR0p{", "FORc02{"}
+Openers == {"{", "N{", "M0{", "M1{", "M2{", "IF1{", "IF0{", "IFc{", "IFu{", "IFm{", "IFp{", "FOR02{", "FOR13{", "FOR20{", "FOR0c{", "FOR0p{", "FORc02{"}
 IfCond(t) == CASE t = "IF1{" -> N(1) [] t = "IF0{" -> N(0) [] t = "IFc{" -> I("c") [] t = "IFu{" -> I("undefinedname")
-               [] t = "IFm{" -> N(0 - 1)
+               [] t = "IFm{" -> N(0 - 1) [] t = "IFp{" -> I("p")
 ForLo(t) == CASE t = "FOR13{" -> N(1) [] t = "FOR20{" -> N(2) [] OTHER -> N(0)
 ForHi(t) == CASE t \in {"FOR02{", "FORc02{"} -> N(2) [] t = "FOR13{" -> N(3) [] t = "FOR20{" -> N(0) [] t = "FOR0c{" -> I("c") [] t = "FOR0p{" -> I("p")
 RECURSIVE TreeFrom(_, _)
@@ -112,7 +116,7 @@ TreeFrom(ts, p) ==
                             [] t = "M0{" -> [k |-> "macro", n |-> "m0", ps |-> <<>>, b |-> inner.body]
                             [] t = "M1{" -> [k |-> "macro", n |-> "m1", ps |-> <<"p">>, b |-> inner.body]
                             [] t = "M2{" -> [k |-> "macro", n |-> "m2", ps |-> <<"a", "p">>, b |-> inner.body]
-                            [] t \in {"IF1{", "IF0{", "IFc{", "IFu{", "IFm{"} ->
+                            [] t \in {"IF1{", "IF0{", "IFc{", "IFu{", "IFm{", "IFp{"} ->
                                    [k |-> "if", e |-> IfCond(t), t |-> inner.body, hasf |-> inner.term = "}E{", f |-> alt.body]
                             [] OTHER -> [k |-> "for", v |-> IF t = "FORc02{" THEN "c" ELSE "i", a |-> ForLo(t), b |-> ForHi(t), body |-> inner.body]
               IN [body |-> <<node>> \o rest.body, next |-> rest.next, term |-> rest.term]
@@ -123,7 +127,7 @@ Prog(ts) == [rom |-> "low", defines |-> <<>>, body |-> <<Star(32768)>> \o TreeFr
 \* the innermost open construct is an .if whose else has not been used yet
 RECURSIVE OpenStack(_, _, _)
 OpenStack(q, p, stk) == IF p > Len(q) THEN stk
-                        ELSE IF q[p] \in Openers THEN OpenStack(q, p + 1, Append(stk, IF q[p] \in {"IF1{", "IF0{", "IFc{", "IFu{", "IFm{"} THEN "if" ELSE "other"))
+                        ELSE IF q[p] \in Openers THEN OpenStack(q, p + 1, Append(stk, IF q[p] \in {"IF1{", "IF0{", "IFc{", "IFu{", "IFm{", "IFp{"} THEN "if" ELSE "other"))
                         ELSE IF q[p] = "}" THEN OpenStack(q, p + 1, SubSeq(stk, 1, Len(stk) - 1))
                         ELSE IF q[p] = "}E{" THEN OpenStack(q, p + 1, [stk EXCEPT ![Len(stk)] = "else"])
                         ELSE OpenStack(q, p + 1, stk)
@@ -134,7 +138,7 @@ DefName(t) == CASE t \in {"La", "Ea7", "A5"} -> "a" [] t = "Lb" -> "b" [] t = "E
                 [] t \in {"Lc", "C10", "C1234", "C3", "Ec5", "Eca", "Ec1234"} -> "c" [] OTHER -> ""
 \* names defined so far in each open scope (a stack); re-definition in one scope is outside the statements,
 \* so such token strings are not extended (they would all be `unspec`)
-IsIfOpener(t) == t \in {"IF1{", "IF0{", "IFc{", "IFu{", "IFm{"}
+IsIfOpener(t) == t \in {"IF1{", "IF0{", "IFc{", "IFu{", "IFm{", "IFp{"}
 
 VARIABLES ts, depth, defd
 vars == <<ts, depth, defd>>
